@@ -216,7 +216,7 @@ func (s *subject) snapshot() (string, string) {
 }
 
 // probe kinds: single-name and two-name helpers
-var singleKinds = []string{"mkdir", "mkdirall", "openfile", "create", "writefile", "remove", "removeall", "chmod", "chtimes", "chown",
+var singleKinds = []string{"mkdir", "mkdirall", "openfile", "create", "writefile", "remove", "removeall", "chmod", "chtimes", "chown", "chownkeep",
 	"stat", "lstat", "lstatorstat", "open", "readdir", "readfile", "sub"}
 var doubleKinds = []string{"rename", "symlink"}
 
